@@ -168,6 +168,22 @@ def run(out: Outcome) -> None:
         nm, cl = [("EMD", EMD), ("Energy", EnergyDistance)][(k_sc + out.seed) % 2]
         one(out, rng, nm, cl, {}, ref, test, rng.choice([15, 25]), methods[(k_sc + out.seed) % len(methods)], lines, expect)
         out.count("rescaled_unit_cases")
+    # a LARGE workload (thousands of samples x thousands of permutations: hundreds of megabytes of permuted data if materialised at once) with 1 and 2 workers: the null
+    # statistics and the p-value are those of the seed, whatever the number of workers (about 6 s)
+    if True:
+        big_ref = np.array([rng.gauss(0, 1) for _ in range(2000)])
+        big_test = np.array([rng.gauss(0.03, 1) for _ in range(2000)])
+        got_big = []
+        for j in (1, 2):
+            cb = PermutationTestDistanceBased(num_permutations=4500, random_state=31, num_jobs=j, method="conservative", name="perm")
+            det = EMD(callbacks=[cb])
+            det.fit(X=big_ref)
+            _, logs = det.compare(X=big_test)
+            got_big.append(([float(v) for v in logs["perm"]["permuted_statistics"]], float(logs["perm"]["p_value"])))
+        if got_big[0] != got_big[1]:
+            out.violation(f"EMD permutation test on 2 x 2000 samples with 4500 permutations: num_jobs=1 gives p={got_big[0][1]!r}, num_jobs=2 gives p={got_big[1][1]!r} for the same random_state",
+                          {"detector": "EMD", "n": 2000, "m": 2000, "num_permutations": 4500, "random_state": 31, "kind": "large workload x num_jobs"})
+        out.case({"large_workload": True, "n": 2000, "m": 2000, "K": 4500})
     # identical samples: every null statistic ties with the observed one for symmetric statistics
     one(out, rng, "HI", HINormalizedComplement, {"num_bins": 4}, [0.0, 1.0, 2.0, 3.0, 1.0, 2.0], [0.0, 1.0, 2.0, 3.0, 1.0, 2.0], 15, "conservative", lines, expect)
     # enumerate-all branch (fewer permutations exist than requested)
